@@ -1,5 +1,6 @@
 import Lean.Data.Json
 import FlytModel.Spec.Flow
+import FlytModel.Spec.Batch
 import FlytModel.Codec
 /-!
 # Driver, family `flow`: single-node runs, flows, nested flows, sequential / serial-pool batches
@@ -208,6 +209,41 @@ def orAll (l : List (String × Bool)) (k : String) (b : Bool) : List (String × 
 
 def FUEL : Nat := 2000
 
+/-- the batch-level view of a run whose root is a batch node (sequential / one-worker / schedule-independent) -/
+def batchViewOf (o : RunObs) : BatchView :=
+  let ev : List Conc.Obs := o.trace.flatMap fun e =>
+    match e with
+    | .bexec _ _ i k _ => [Conc.Obs.start i k, Conc.Obs.done i k]
+    | .bfb _ _ i _ _ => [Conc.Obs.fb i]
+    | .bpost .. => [Conc.Obs.post]
+    | _ => []
+  let posts := o.trace.filterMap fun e => match e with | .bpost _ _ _ it sl => some (it, sl) | _ => none
+  let (items, slots) := posts.getLast?.getD ([], [])
+  { events := ev, quiescent := [], items := items,
+    slots := slots.map (fun v => match v.asResult? with | some r => r | none => newResult v),
+    posts := posts.length, outOk := (match o.out with | .ok _ => true | _ => false) }
+
+def concCfgOf (kind : CtxKind) (cfg : BatchCfg) (scr : BatchScript) (n : Nat) : Conc.Cfg :=
+  { n := n, w := if cfg.conc = 0 then 1 else cfg.conc, cap := 2 * (if cfg.conc = 0 then 1 else cfg.conc),
+    stop := cfg.stop, budget := cfg.budget, fb := cfg.fb, execS := cfg.execS,
+    exec := fun i k => (scr.item i).exec k, fbOut := fun i => (scr.item i).fb, kind := kind }
+
+/-- C06-C09, C11 (and C02 per item) for a run of a single batch node -/
+def judgeBatchRoot (env : Env) (root : NodeId) (vis : NodeId → Nat) (cf : Bool) (o : RunObs) : List (String × Bool) :=
+  match env.arena root with
+  | .batch cfg =>
+    let scr := env.batchBeh root (vis root)
+    match scr.prep.res with
+    | .error _ => []
+    | .ok l =>
+      let items := normItems cfg.shape l
+      let c := concCfgOf env.kind cfg scr items.length
+      let v := batchViewOf o
+      if !cfg.hasPost then [] else
+      [("C06", c06 c (items.map Result.box) v), ("C07", !cf || c07 c v), ("C08", c08 c (cfg.conc == 0) v),
+       ("C09", c09 c v), ("C11", c11 c v), ("C02b", !cf || c02Batch c v)]
+  | _ => []
+
 /-- all property predicates for one run, on an observation `o` -/
 def judgeRun (env : Env) (ctx0 : Ctx) (root : NodeId) (vis : NodeId → Nat) (cancelFree : Bool)
     (o : RunObs) (flat ref : RunObs) : List (String × Bool) :=
@@ -223,11 +259,15 @@ def judgeRun (env : Env) (ctx0 : Ctx) (root : NodeId) (vis : NodeId → Nat) (ca
   let c02 := !cancelFree || leafSegs.all (fun (cfg, scr, _, seg) => c02Visit cfg scr seg)
   let c03 := !cancelFree || Spec.c03 env root vis FUEL o
   let c04 := !cancelFree || Spec.c04 env o
-  let c05 := Spec.c05 env ctx0 o ref
+  -- C05 speaks of non-batch nodes and flows; a batch node run directly is judged by C11
+  let c05 := (match env.arena root with | .batch _ => true | _ => false) || Spec.c05 env ctx0 o ref
   let c10 := Spec.c10 o flat
   let c17 := leafSegs.all (fun (cfg, scr, _, seg) => c17Visit cfg scr seg)
   let c18 := Spec.c18 o
+  let bj := judgeBatchRoot env root vis cancelFree o
+  let c02 := c02 && (bj.all fun (k, b) => k != "C02b" || b)
   [("C01", c01), ("C02", c02), ("C03", c03), ("C04", c04), ("C05", c05), ("C10", c10), ("C17", c17), ("C18", c18)]
+    ++ bj.filter (·.1 != "C02b")
 
 def process (sc : ScJ) (obs : ObsJ) : Except String Verdict := do
   let kind ← match sc.kind with
@@ -306,6 +346,15 @@ def process (sc : ScJ) (obs : ObsJ) : Except String Verdict := do
       nontrivial := orAll nontrivial "C10" (nested && nSeg ≥ 2)
       nontrivial := orAll nontrivial "C17" (funcStyle && nExec ≥ 1)
       nontrivial := orAll nontrivial "C18" (emptyAct && (match m.out with | .ok _ => true | _ => false))
+      let nBexec := (tr.filter fun e => match e with | .bexec .. => true | _ => false).length
+      let slotErr := tr.any fun e => match e with
+        | .bpost _ _ _ _ sl => sl.any (fun v => match v with | .res _ (some _) => true | _ => false) | _ => false
+      let stopMode := nodes.any fun p => match p.2 with | .batch c => c.stop | _ => false
+      nontrivial := orAll nontrivial "C06" (nBexec ≥ 2)
+      nontrivial := orAll nontrivial "C07" (nBexec ≥ 2 && slotErr && !stopMode)
+      nontrivial := orAll nontrivial "C08" (nBexec ≥ 2)
+      nontrivial := orAll nontrivial "C09" (slotErr && stopMode)
+      nontrivial := orAll nontrivial "C11" (!cancelFree && nBexec ≥ 1)
       modelRuns := modelRuns ++ [runObsToJ m]
       vis := r.2.1.visits
     | _, _ => throw "bad step"
